@@ -42,7 +42,7 @@ ASSUMPTIONS = [
     "only interleavings actually produced under the injected latency are judged (bounded restatement of 'all interleavings')",
     "executors other than the three local ones are not installed",
 ]
-NSHARDS = {"quick": 16, "thorough": 32}
+NSHARDS = {"quick": 16, "thorough": 16}
 PER_SHARD = {"quick": 28, "thorough": 170}
 SITE = os.path.join(os.path.dirname(os.path.dirname(os.path.abspath(__file__))), "vlib", "site")
 
@@ -400,12 +400,12 @@ def finalize(tier, merged):
     return {
         "rule": RULE,
         "floors": [
-            ("reads of produced arrays judged", c.get("reads_checked", 0), 15000 if tier == "quick" else 150000),
-            ("runs in which >= 2 tasks overlapped in time", c.get("runs_with_overlap", 0), 250 if tier == "quick" else 2500),
-            ("distinct interleavings observed", len(merged["sets"].get("interleavings", [])), 300 if tier == "quick" else 3000),
-            ("store events observed inside worker processes", c.get("worker_process_events", 0), 100 if tier == "quick" else 3000),
-            ("runs of plans whose operations have > 1000 tasks in flight at once", c.get("wide_runs", 0), 8 if tier == "quick" else 40),
-            ("schedules (generation lists + node orders) checked against the DAG's dependencies", c.get("generation_lists_checked", 0) + c.get("node_orders_checked", 0), 500 if tier == "quick" else 5000),
+            ("reads of produced arrays judged", c.get("reads_checked", 0), 15000 if tier == "quick" else 75000),
+            ("runs in which >= 2 tasks overlapped in time", c.get("runs_with_overlap", 0), 250 if tier == "quick" else 1250),
+            ("distinct interleavings observed", len(merged["sets"].get("interleavings", [])), 300 if tier == "quick" else 1500),
+            ("store events observed inside worker processes", c.get("worker_process_events", 0), 100 if tier == "quick" else 1500),
+            ("runs of plans whose operations have > 1000 tasks in flight at once", c.get("wide_runs", 0), 8 if tier == "quick" else 20),
+            ("schedules (generation lists + node orders) checked against the DAG's dependencies", c.get("generation_lists_checked", 0) + c.get("node_orders_checked", 0), 500 if tier == "quick" else 2500),
         ],
         "assumptions": ASSUMPTIONS,
     }
